@@ -66,23 +66,28 @@ Qed.
 Lemma step_B s f ag s' ag' : InvB s -> step s f ag = (s', ag') -> InvB s'.
 Proof.
   intros HB H. pose proof HB as [Hp Hs].
-  destruct f as [[cb|full cb| | |r|]| | |]; cbn [step do_op] in H.
+  destruct f as [[cb|full cb| | |r|]| | | |]; cbn [step do_op] in H.
   - destruct (s_max s <=? len (s_queue s)).
     + inversion H; subst. eapply InvB_view; [|exact HB]. reflexivity.
     + apply take_next_B in H; [|exact Hp]. eapply InvB_view; [|exact HB]. rewrite H. reflexivity.
-  - destruct (s_discov s).
+  - destruct (s_discov s && negb (h_destroying s)).
     + apply take_next_B in H; [|exact Hp]. eapply InvB_view; [|exact HB]. rewrite H. reflexivity.
     + inversion H; subst. exact HB.
   - inversion H; subst. split; cbn; auto.
   - apply take_next_B in H; [|reflexivity]. unfold bview in H. cbn in H. inversion H as [[E1 E2 E3]].
     split; [rewrite E1, E2; reflexivity | congruence].
-  - destruct (m_out s).
+  - destruct (h_destroying s); [inversion H; subst; exact HB|].
+    destruct (m_out s).
     + inversion H; subst. exact HB.
     + apply handle_B in H; [|exact Hp]. eapply InvB_view; [|exact HB]. rewrite H. reflexivity.
-  - destruct (m_dout s).
+  - destruct (h_destroying s); [inversion H; subst; exact HB|].
+    destruct (m_dout s).
     + inversion H; subst. exact HB.
     + unfold disc_complete in H. inversion H; subst. eapply InvB_view; [|exact HB]. reflexivity.
   - apply take_next_B in H; [|exact Hp]. eapply InvB_view; [|exact HB]. exact H.
   - inversion H; subst. eapply InvB_view; [|exact HB]. reflexivity.
   - apply take_next_B in H; [|exact Hp]. eapply InvB_view; [|exact HB]. rewrite H. reflexivity.
+  - destruct (h_destroying s); [|inversion H; subst; exact HB].
+    unfold destroy_next in H. destruct (s_queue s) as [|[id cb] q]; inversion H; subst; [exact HB|].
+    eapply InvB_view; [|exact HB]. reflexivity.
 Qed.
